@@ -172,6 +172,27 @@ def run(tier, wd):
             rep.violation("sub command with the ill-formed spec %r: Run must panic with the spec error before any interceptor runs; panic=%r, ran %s" % (
                 s_, r.get("panic"), r["log"]), {"engine": "parse", "model": m, "s": s_, "pos": []})
     rep.cov["sub_command_spec_errors"] = len(tcases)
+    # ... and for the application's own spec whatever the arguments are: a version or help request, nothing, a sub command
+    vcases, vmeta = [], []
+    for (m,) in bad[: 150 if q else 3000]:
+        s_, pos = render_kinds(m["t"], rnd)
+        for argv in (["-v"], ["--version"], ["--help"], ["sub"], ["sub", "-h"]):
+            nodes = [{"names": ["app"], "path": "app", "spec": s_, "opts": [{"names": "a aa", "flag": True}, {"names": "b", "flag": True}, {"names": "o out", "flag": False}],
+                      "intopt": "", "args": ["X", "Y"], "subs": [1], "action": True},
+                     {"names": ["sub"], "path": "app sub", "spec": "", "opts": [], "intopt": "", "args": [], "subs": [], "action": True}]
+            vcases.append({"nodes": nodes, "version": "v version", "policy": rnd.choice(["continue", "exit", "panic"]), "argv": argv})
+            vmeta.append((m, s_))
+    vres = core.run_harness(binpath, "tree", vcases, sub)
+    for (m, s_), c, r in zip(vmeta, vcases, vres):
+        rep.cov["evaluations"] += 1
+        if r.get("skipped"):
+            continue
+        if r.get("hang") or r.get("crash"):
+            rep.violation("application spec %r, argv %s: %s" % (s_, c["argv"], r), {"engine": "treeparse", "case": c})
+        elif not r.get("panic", "").startswith("error:Parse error") or r["log"] or r.get("version"):
+            rep.violation("application with the ill-formed spec %r run with %s: Run must panic with the spec error; panic=%r, ran %s, version printed=%s" % (
+                s_, c["argv"], r.get("panic"), r["log"], r.get("version")), {"engine": "treeparse", "case": c})
+    rep.cov["application_spec_errors_with_requests"] = len(vcases)
     rep.cov["kind_sequences"] = len(seqs)
     rep.cov["traces_validated_against_impl"] = len(rows) + len(strs) + len(seqs)
     rep.cov["distinct_nontrivial"] = len(lex_nontriv) + parse_nontriv
@@ -197,6 +218,10 @@ def replay(path, wd):
         j = lc.judge_lex(o["model"], o["s"], o["rep"], r)
         print("replay: %r -> %s ; %s" % (o["s"], json.dumps(r), j))
         return 1 if j and j[0] == "violation" else 0
+    if o["engine"] == "treeparse":
+        r = core.run_harness(binpath, "tree", [o["case"]], wd, shards=1)[0]
+        print("replay: %s -> %s" % (o["case"]["argv"], json.dumps(r)))
+        return 0 if (r.get("panic", "").startswith("error:Parse error") and not r["log"] and not r.get("version")) else 1
     pf = os.path.join(wd, "progs.json")
     with open(pf, "w") as f:
         json.dump([g.STD_PROG], f)
